@@ -256,12 +256,23 @@ class SGen(object):
                 self.emit(ind, 'import os, sys as %s' % r.choice(NAMES))
         elif k < 0.68 and o.annotations:
             c = r.random()
-            if c < 0.5:
-                self.emit(ind, '%s: %s = %s' % (r.choice(NAMES), r.choice(['int', self.name(), '(%s := int)' % r.choice(NAMES)]), self.expr()))
-            elif c < 0.8:
+            ann = r.choice(['int', self.name(), '(%s := int)' % r.choice(NAMES)])
+            if c < 0.35:
+                self.emit(ind, '%s: %s = %s' % (r.choice(NAMES), ann, self.expr()))
+            elif c < 0.55:
                 self.emit(ind, '%s: %s' % (r.choice(NAMES), r.choice(['int', self.name()])))
             else:
-                self.emit(ind, '%s.%s: int = %s' % (self.name(), r.choice(ATTRS), self.expr()))
+                # attribute / subscript / nested targets, with and without a value: CPython evaluates the object and
+                # index expressions of the target even when there is no value (and stores only when there is one)
+                o1, o2 = self.name(), self.name()
+                tgt = r.choice(['%s.%s' % (o1, r.choice(ATTRS)), '%s[%s]' % (o1, o2), "%s['s']" % o1,
+                                '%s.%s[%s]' % (o1, r.choice(ATTRS), o2), '%s[%s].%s' % (o1, o2, r.choice(ATTRS)),
+                                '%s().%s' % (o1, r.choice(ATTRS)), '%s[%s + %s]' % (o1, o2, self.name()),
+                                '(%s)' % r.choice(NAMES)])
+                if r.random() < 0.55:
+                    self.emit(ind, '%s: %s' % (tgt, ann))
+                else:
+                    self.emit(ind, '%s: %s = %s' % (tgt, ann, self.expr()))
         elif k < 0.74:
             self.emit(ind, 'return %s' % self.expr() if self.depth_fn > 0 else 'pass')
         elif k < 0.78:
@@ -680,8 +691,22 @@ class DGen(progs.Gen):
             self.emit(ind, '%s = {q: %s for q in (1,)}' % (v, self.rd(defined)))
             return defined | {v}
         if k == 12:
-            self.emit(ind, '%s: int = %s' % (v, self.texpr(defined)))
-            return defined | {v}
+            form = r.randint(0, 5)
+            d = self.rd(defined)
+            if form == 0:
+                self.emit(ind, '%s: int = %s' % (v, self.texpr(defined)))
+                return defined | {v}
+            if form == 1:       # value-less declarations: nothing stored, target sub-expressions still evaluated
+                self.emit(ind, '%s: int' % v)
+            elif form == 2:
+                self.emit(ind, 'GO.p: int')
+            elif form == 3:
+                self.emit(ind, 'GO.d[%s]: TY' % d)
+            elif form == 4:
+                self.emit(ind, 'GH(%s).d[%s]: int = %s' % (d, d, self.texpr(defined)))
+            else:
+                self.emit(ind, 'GH(%s).p: TY' % d)
+            return defined
         self.emit(ind, '%s = sum(q + %s for q in (1, 2))' % (v, self.rd(defined)))
         return defined | {v}
 
